@@ -264,7 +264,12 @@ fn perform(st: &mut State, op: &Json, idx: usize) {
                 Some(h) => {
                     // Optionally narrow the handle to an inner element.
                     let h = if op["map"].as_bool().unwrap_or(false) {
-                        let h2 = h.clone().maybe_map::<Value<'static>, _>(first_element);
+                        // Three ways of narrowing a handle: maybe_map, map, try_map.
+                        let h2 = match op["map_kind"].as_u64().unwrap_or(0) % 3 {
+                            0 => h.clone().maybe_map::<Value<'static>, _>(first_element),
+                            1 => Some(h.clone().map::<Value<'static>, _>(first_or_self)),
+                            _ => h.clone().try_map::<Value<'static>, (), _>(first_or_err).ok(),
+                        };
                         match h2 {
                             Some(x) => {
                                 bump(st, "probe.handles_mapped_to_inner_value");
@@ -458,6 +463,95 @@ fn perform(st: &mut State, op: &Json, idx: usize) {
                 None => st.entities.push(None),
             }
         }
+        "freeze_and_hold" => {
+            // A value of a frozen source module is brought into an unfrozen heap (load() or
+            // add_to_heap); the host keeps the `Value<'v>`; the module is frozen and the frozen
+            // module as well as the source are dropped while the unfrozen heap is still alive: the
+            // value the host holds must stay intact for as long as that heap exists.
+            let via_load = op["via_load"].as_bool().unwrap_or(true);
+            let n = 200 + (op["size"].as_u64().unwrap_or(0) % 2000);
+            let tag = op["tag"].as_u64().unwrap_or(0);
+            let src_text = format!("big = [\"src{tag}-%d\" % i for i in range({n})]\nnum = (1 << 70) + {tag}\ndef getbig():\n    return [big[0], num]\n");
+            let expect_fn = |m: &Module| -> Vec<String> {
+                let mut out = Vec::new();
+                let mut eval = Evaluator::new(m);
+                for nm in ["hbig", "hnum", "hget"] {
+                    if let Some(v) = m.get(nm) {
+                        out.push(observe_value(nm, v, &mut eval));
+                    }
+                }
+                out
+            };
+            let mut problem = None;
+            Module::with_temp_heap(|module| {
+                let src = Module::with_temp_heap(|sm| {
+                    {
+                        let mut e = Evaluator::new(&sm);
+                        if let Ok(ast) = kit::parse("src.star", &src_text) {
+                            let _ = e.eval_module(ast, kit::globals());
+                        }
+                    }
+                    sm.freeze()
+                });
+                let Ok(src) = src else { return };
+                if via_load {
+                    let loader = kit::MapLoader { modules: [("src".to_owned(), src.clone())].into_iter().collect() };
+                    let mut eval = Evaluator::new(&module);
+                    eval.set_loader(&loader);
+                    if let Ok(ast) = kit::parse(&format!("m{idx}.star"), "load(\"src\", hbig = \"big\", hnum = \"num\", hget = \"getbig\")\nkeep = [hbig, hnum, hget]\n") {
+                        let _ = eval.eval_module(ast, kit::globals());
+                    }
+                } else {
+                    for (nm, to) in [("big", "hbig"), ("num", "hnum"), ("getbig", "hget")] {
+                        if let Ok(h) = src.get_owned(nm) {
+                            let v = h.add_to_heap(module.heap());
+                            module.set(to, v);
+                        }
+                    }
+                }
+                let held: Vec<Value> = ["hbig", "hnum", "hget"].iter().filter_map(|n| module.get(n)).collect();
+                let before = expect_fn(&module);
+                drop(src);
+                // Freeze a second module view? No: freeze this very module; its unfrozen heap lives
+                // until the closure returns.
+                let heap = module.heap();
+                let frozen = module.freeze();
+                drop(frozen);
+                // Churn: similar heaps, so that freed memory is really reused (when not quarantined).
+                let mut churn = Vec::new();
+                for c in 0..4 {
+                    churn.push(Module::with_temp_heap(|cm| {
+                        {
+                            let mut e = Evaluator::new(&cm);
+                            if let Ok(ast) = kit::parse("churn.star", &src_text.replace("src", &format!("chu{c}"))) {
+                                let _ = e.eval_module(ast, kit::globals());
+                            }
+                        }
+                        cm.freeze()
+                    }));
+                }
+                // What the host still holds.
+                let mut after = Vec::new();
+                Module::with_temp_heap(|om| {
+                    let mut eval = Evaluator::new(&om);
+                    for (nm, v) in ["hbig", "hnum", "hget"].iter().zip(held.iter()) {
+                        // The values live on `heap` (still alive); observe them from a fresh evaluator.
+                        let _ = heap;
+                        let v2: Value = unsafe { std::mem::transmute::<Value, Value>(*v) };
+                        after.push(observe_value(nm, v2, &mut eval));
+                    }
+                });
+                drop(churn);
+                if after != before {
+                    problem = Some(format!("values held by the host across freeze changed: {:?}", kit::diff_transcripts(&before, &after)));
+                }
+            });
+            if let Some(p) = problem {
+                st.problems.push(format!("op {idx} freeze_and_hold: {p}"));
+            }
+            bump(st, "probe.values_held_across_freeze");
+            st.entities.push(None);
+        }
         "drop" => {
             let t = op["target"].as_u64().unwrap_or(0) as usize;
             if let Some(slot) = st.entities.get_mut(t) {
@@ -482,6 +576,14 @@ fn first_element(v: Value<'_>) -> Option<Value<'_>> {
         }
     }
     it
+}
+
+fn first_or_self(v: Value<'_>) -> Value<'_> {
+    first_element(v).unwrap_or(v)
+}
+
+fn first_or_err(v: Value<'_>) -> Result<Value<'_>, ()> {
+    first_element(v).ok_or(())
 }
 
 fn index0(v: Value<'_>) -> Option<Value<'_>> {
@@ -573,8 +675,16 @@ impl World for C13 {
                     }
                 }
                 let mut loaded: Vec<(String, Vec<(String, Kind)>)> = Vec::new();
+                // One module in six imports scalars only (ints - big ones live on the heap -, which
+                // are easily mistaken for values that need no owner).
+                let scalars_only = wl.chance(1, 6);
                 for d in &deps {
                     if let G::Frozen(ex) = &ents[*d] {
+                        let ints: Vec<(String, Kind)> = ex.iter().filter(|(_, k)| *k == Kind::Int).cloned().collect();
+                        if scalars_only && !ints.is_empty() {
+                            loaded.push((format!("e{d}"), ints.into_iter().take(3).collect()));
+                            continue;
+                        }
                         let mut pick: Vec<(String, Kind)> = Vec::new();
                         let n = 1 + wl.usize(3);
                         for _ in 0..n {
@@ -627,7 +737,7 @@ impl World for C13 {
                 ents.push(ents[t].clone());
             } else if r < 52 {
                 let t = frozen[wl.usize(frozen.len())];
-                ops.push(json!({"op": "handle", "thread": thread, "target": t, "name": wl.below(64), "map": wl.chance(1, 3), "extra": wl.chance(1, 6)}));
+                ops.push(json!({"op": "handle", "thread": thread, "target": t, "name": wl.below(64), "map": wl.chance(1, 3), "map_kind": wl.below(3), "extra": wl.chance(1, 6)}));
                 ents.push(G::Handle);
             } else if r < 59 && !handles.is_empty() {
                 let t = handles[wl.usize(handles.len())];
@@ -644,6 +754,9 @@ impl World for C13 {
                 let group_name = if wl.bool() { json!("group") } else { Json::Null };
                 ops.push(json!({"op": "globals", "thread": thread, "targets": ts, "via_group": wl.chance(1, 3), "short_names": wl.chance(1, 2), "marker": wl.chance(2, 3), "group_name": group_name}));
                 ents.push(G::Globals);
+            } else if r >= 97 {
+                ops.push(json!({"op": "freeze_and_hold", "thread": thread, "via_load": wl.bool(), "size": wl.below(2000), "tag": wl.below(1000)}));
+                ents.push(G::Dead);
             } else if r < 74 && !globals.is_empty() {
                 let t = globals[wl.usize(globals.len())];
                 if wl.bool() {
